@@ -13,28 +13,65 @@ type TypeReader interface {
 	Read(r io.Reader) ([]byte, error)
 }
 
+// consumer is implemented by the readers of this package: it reads
+// from r the bytes representing the type and appends them to buf.
+// Composite readers use it so that the bytes of their elements are
+// not copied again at each level of nesting.
+type consumer interface {
+	readInto(r io.Reader, buf *bytes.Buffer) error
+}
+
+// readInto appends to buf the bytes read by t.
+func readInto(t TypeReader, r io.Reader, buf *bytes.Buffer) error {
+	if c, ok := t.(consumer); ok {
+		return c.readInto(r, buf)
+	}
+	data, err := t.Read(r)
+	if err != nil {
+		return err
+	}
+	buf.Write(data)
+	return nil
+}
+
+// read returns the bytes read by c.
+func read(c consumer, r io.Reader) ([]byte, error) {
+	var buf bytes.Buffer
+	if err := c.readInto(r, &buf); err != nil {
+		return nil, err
+	}
+	return buf.Bytes(), nil
+}
+
 // constReader is a Reader which always read a constant size.
 type constReader int
 
 func (c constReader) Read(r io.Reader) ([]byte, error) {
+	return read(c, r)
+}
+
+func (c constReader) readInto(r io.Reader, buf *bytes.Buffer) error {
 	data := make([]byte, int(c))
 	err := basic.ReadN(r, data, int(c))
 	if err != nil {
-		return nil, err
+		return err
 	}
-	return data, nil
+	buf.Write(data)
+	return nil
 }
 
 type stringReader struct{}
 
 func (v stringReader) Read(r io.Reader) ([]byte, error) {
+	return read(v, r)
+}
+
+func (v stringReader) readInto(r io.Reader, buf *bytes.Buffer) error {
 	str, err := basic.ReadString(r)
 	if err != nil {
-		return nil, err
+		return err
 	}
-	var buf bytes.Buffer
-	err = basic.WriteString(str, &buf)
-	return buf.Bytes(), err
+	return basic.WriteString(str, buf)
 }
 
 // UnknownReader is a TypeReader which returns an error.
@@ -47,9 +84,13 @@ func (v UnknownReader) Read(r io.Reader) ([]byte, error) {
 type valueReader struct{}
 
 func (v valueReader) Read(r io.Reader) ([]byte, error) {
+	return read(v, r)
+}
+
+func (v valueReader) readInto(r io.Reader, buf *bytes.Buffer) error {
 	sig, err := basic.ReadString(r)
 	if err != nil {
-		return nil, fmt.Errorf("read signature: %s", err)
+		return fmt.Errorf("read signature: %s", err)
 	}
 	var reader TypeReader
 	if sig == "r" {
@@ -57,18 +98,15 @@ func (v valueReader) Read(r io.Reader) ([]byte, error) {
 		// a valid dynamic value: a length prefixed byte array.
 		reader = stringReader{}
 	} else if reader, err = MakeReader(sig); err != nil {
-		return nil, err
+		return err
 	}
-	data, err := reader.Read(r)
-	if err != nil {
-		return nil, fmt.Errorf("read value: %s", err)
+	if err = basic.WriteString(sig, buf); err != nil {
+		return fmt.Errorf("write signature: %s", err)
 	}
-	var buf bytes.Buffer
-	if err = basic.WriteString(sig, &buf); err != nil {
-		return nil, fmt.Errorf("write signature: %s", err)
+	if err = readInto(reader, r, buf); err != nil {
+		return fmt.Errorf("read value: %s", err)
 	}
-	buf.Write(data)
-	return buf.Bytes(), nil
+	return nil
 }
 
 type varReader struct {
@@ -76,37 +114,36 @@ type varReader struct {
 }
 
 func (v varReader) Read(r io.Reader) ([]byte, error) {
+	return read(v, r)
+}
+
+func (v varReader) readInto(r io.Reader, buf *bytes.Buffer) error {
 	size, err := basic.ReadUint32(r)
 	if err != nil {
-		return nil, fmt.Errorf("read size: %s", err)
+		return fmt.Errorf("read size: %s", err)
 	}
 	if int(size) < 0 {
-		return nil, fmt.Errorf("invalid size: %d", size)
+		return fmt.Errorf("invalid size: %d", size)
 	}
-	var buf bytes.Buffer
-	err = basic.WriteUint32(size, &buf)
+	err = basic.WriteUint32(size, buf)
 	if err != nil {
-		return nil, fmt.Errorf("write size %d: %s",
+		return fmt.Errorf("write size %d: %s",
 			size, err)
 	}
 	for i := 0; i < int(size); i++ {
-		data, err := v.reader.Read(r)
+		before := buf.Len()
+		err := readInto(v.reader, r, buf)
 		if err != nil {
-			return nil, fmt.Errorf("read %d/%d: %s",
+			return fmt.Errorf("read %d/%d: %s",
 				i+1, size, err)
 		}
-		if len(data) == 0 {
+		if buf.Len() == before {
 			// zero width element (void or empty tuple): the
 			// other elements do not consume anything either.
 			break
 		}
-		err = basic.WriteN(&buf, data, len(data))
-		if err != nil {
-			return nil, fmt.Errorf("read %d/%d: %s",
-				i, size, err)
-		}
 	}
-	return buf.Bytes(), nil
+	return nil
 }
 
 type memberReader struct {
@@ -117,22 +154,18 @@ type memberReader struct {
 type tupleReader []memberReader
 
 func (v tupleReader) Read(r io.Reader) ([]byte, error) {
-	var buf bytes.Buffer
+	return read(v, r)
+}
+
+func (v tupleReader) readInto(r io.Reader, buf *bytes.Buffer) error {
 	for _, member := range v {
-		name := member.name
-		reader := member.reader
-		data, err := reader.Read(r)
+		err := readInto(member.reader, r, buf)
 		if err != nil {
-			return nil, fmt.Errorf("read %s: %s",
-				name, err)
-		}
-		basic.WriteN(&buf, data, len(data))
-		if err != nil {
-			return nil, fmt.Errorf("write %s: %s",
-				name, err)
+			return fmt.Errorf("read %s: %s",
+				member.name, err)
 		}
 	}
-	return buf.Bytes(), nil
+	return nil
 }
 
 // MakeReader parse the signature and returns its associated Reader.
